@@ -91,13 +91,4 @@ Print Assumptions C02_rows_refuted.
 
 (** non-vacuity: the same concrete run returns, so the premises of [C02_frame] are satisfiable *)
 Example C02_nonvacuous : exists out log, k9_out = Modified out log.
-Proof.
-  exact (match k9_out as m return (match m with Modified _ _ => True | Failed _ => False end ->
-                                   exists out log, m = Modified out log) with
-         | Modified o l => fun _ => ex_intro _ o (ex_intro _ l eq_refl)
-         | Failed _ => fun F => match F with end
-         end (match k9_witness with conj _ (conj _ W) =>
-                (match k9_out as m return (match m with Modified out _ => _ | Failed _ => False end ->
-                                           match m with Modified _ _ => True | Failed _ => False end) with
-                 | Modified _ _ => fun _ => I | Failed _ => fun F => F end) W end)).
-Qed.
+Proof. exact k9_returns. Qed.
